@@ -603,7 +603,12 @@ theorem decode_of_seg (num : α → String) (g : Tg α) (lo hi : α) (s : String
 /-- **C02, short layout, whole files**: whatever the textgrid (any number of tiers and entries, any names and labels —
 quotes, newlines, the format's own keywords), the independent reader accepts the file `_tgToShortTextForm` writes, every
 declared size equals the number of items that follow, nothing is left over, and the content read is exactly the
-in-memory one -/
+in-memory one.  NO hypothesis on names and labels (empty, multi-line, with surrounding blanks, carriage returns, the
+keywords of C02's quantifier — `item [2]:`, `intervals [1]:`, `"IntervalTier"`, `text = "x"`, `ooTextFile short` — all
+included).  The one hypothesis, `hnum`, is about the numeral renderer: its output is a numeral of the format
+`[+-]?(d+(.d*)?|.d+)([eE][+-]?d+)?` (`NumTok.of_isNumeral`) — true of what `my_math.numToStr` writes for EVERY float it accepts,
+negative ones and exponent notation (`1e-05`) included (for `inf` / `nan` it raises and no file is written); proved for
+Python ints (`intTok`), sampled for `repr`. -/
 theorem decode_short (num : α → String) (hnum : ∀ x, NumTok (num x)) (g : Tg α) (lo hi : α) :
     Spec.decode (tgToShort num g lo hi) = some (rawOf num g lo hi) :=
   decode_of_seg num g lo hi _ (short_toList num g lo hi ▸ seg_short num hnum g lo hi)
